@@ -14,7 +14,9 @@ PID = "C08"
 THEOREMS = ["coarsenBins_spec", "coarsenGroup_eq_spec", "cmap_monotone", "cmap_closed_form", "edge_boundary", "no_group_split",
             "coarsen_eq_spec", "coarsen_total", "coarsener_stream_sorted", "coarsen_chunk_independent",
             "coarsen_map_independent", "coarsen_compose", "coarsen_merge_commute", "rebin_correct", "prune_contract",
-            "groupSum_map_groupSum", "coarsen_correct", "coarsen_pointwise", "coarsen_triu", "coarsen_inRange", "groups_flatten"]
+            "groupSum_map_groupSum", "coarsen_correct", "coarsen_pointwise", "coarsen_triu", "coarsen_inRange", "groups_flatten",
+            "coarsen_agg_eq_spec", "coarsen_agg_chunk_independent", "coarsen_agg_correct", "coarsenSpecAgg_sum", "aggFromAgg_spec",
+            "coarsen_agg_pointwise"]
 LEVELS = {"coarsen": "top", "chain": "top", "merge_coarsen": "top", "agg": "top", "extra_column": "top", "cli": "top",
           "prune": "unit", "coarsener": "unit", "bins": "unit"}
 DESCRIBE = {
@@ -24,8 +26,9 @@ DESCRIBE = {
     "chain": "coarsen k1 then k2 (two real runs) vs Lean `coarsenSpec (k1*k2)` / `coarsenBinsSpec (k1*k2)` (theorem coarsen_compose)",
     "merge_coarsen": "merge(coarsen a, coarsen b, …) and coarsen(merge(a, b, …)) (real runs) vs Lean `coarsenSpec k (mergeSpec inputs)` "
                      "(theorem coarsen_merge_commute)",
-    "agg": "coarsen with a requested aggregate (max/min) on the count column: key set = Lean L0, value = aggregate over exactly the old "
-           "pixels that Lean's `cmap` sends to the key",
+    "agg": "coarsen with a requested aggregate (max/min/first/last) on the count column or on an extra integer column, several chunk "
+           "sizes: pixel table vs Lean `coarsenSpecAgg` (= the streaming model for any valid span partition and ANY aggregation "
+           "function, theorems coarsen_agg_eq_spec / coarsen_agg_correct); the summed count column vs `coarsenSpec`",
     "extra_column": "coarsen with columns=['count','w'] or ['w'] (D25 regression): the output carries every requested column, count = exact "
                     "sum (Lean), w = sum/max/min over exactly the old pixels that Lean's `cmap` sends to the key",
     "cli": "`cooler coarsen -k K -c CHUNK -o out in` (CliRunner) vs Lean L0",
@@ -44,7 +47,7 @@ TRUSTED = ["pandas groupby(sort=True).aggregate / iloc[::k], numpy searchsorted/
            "multiprocess.Pool.map preserves input order (exercised for nproc <= 4, modelled as an ordered map)",
            "float64 floor(start / binsize) idealised as integer division (exact below 2^52)",
            "span pruning (_greedy_prune_partition) is a free unit checked by contract"]
-ASSUMPTIONS = ["integer counts; aggregation 'sum' in the proved model (other aggregations are checked by correspondence only)",
+ASSUMPTIONS = ["integer value columns; the proved model covers sum and ANY aggregation function of the group's values in storage order",
                "the source is a valid cooler (C02): chromosome-sorted complete segmentation, strictly sorted in-range pixels, true index"]
 CHUNK = 1
 
@@ -189,29 +192,46 @@ def _merge_coarsen(case):
 
 
 def _agg(case):
-    """requested aggregate on the count column"""
-    bins, pixels, k, agg = case["bins"], case["pixels"], case["k"], case["agg"]
+    """requested aggregate (max/min/first/last) on the count column itself or on an extra INTEGER column `w` (count stays
+    summed): every column vs Lean (`coarsenSpecAgg` for ANY aggregation function, theorem coarsen_agg_eq_spec)"""
+    bins, pixels, k, agg, col = case["bins"], case["pixels"], case["k"], case["agg"], case.get("column", "count")
     d = gen.tmpdir()
     src = os.path.join(d, f"a-{_tag()}-src.cool")
     out = os.path.join(d, f"a-{_tag()}-out.cool")
     try:
-        gen.write_cooler(src, bins, pixels)
-        impl(cooler.coarsen_cooler, src, out, k, chunksize=case["chunksize"], columns=["count"], agg={"count": agg})
-        t = cooler.Cooler(out).pixels()[:]
-        got = {(int(a), int(b)): int(c) for a, b, c in zip(t["bin1_id"], t["bin2_id"], t["count"])}
-        m = _ask_coarsen(bins, pixels, k, case["chunksize"])
-        cm = drv().ask("C08.rebin", bins=bins, lens=_lens(bins), k=k)["cmap"]
-        keys = [(p[0], p[1]) for p in m["pixels"]]
-        if sorted(got) != keys:
-            return {"mismatch": True, "what": "key set under custom agg", "impl": sorted(got), "model": keys}
-        f = max if agg == "max" else min
-        for key in keys:
-            vals = [v for (i, j, v) in pixels if (cm[i], cm[j]) == key]
-            if got[key] != f(vals):
-                return {"mismatch": True, "what": f"count column agg={agg}", "key": key, "impl": got[key], "expected": f(vals)}
-        v = monitor.violations(out)
-        if [x for x in v if "sum" not in x]:
-            return {"mismatch": True, "what": "schema (C02 monitor)", "violated": v}
+        w = [int((v * 7 + i * 3) % 11 - 4) for i, (_, _, v) in enumerate(pixels)]     # not monotone in storage order
+        if col == "w":
+            gen.write_cooler(src, bins, pixels, extra={"w": np.array(w, dtype=np.int64)}, columns=["count", "w"], dtypes={"w": "int64"})
+            cols = ["count", "w"]
+            aggpx = [[i, j, x] for (i, j, _), x in zip(pixels, w)]
+        else:
+            gen.write_cooler(src, bins, pixels)
+            cols = ["count"]
+            aggpx = pixels
+        for cs in case["chunksizes"]:
+            _unlink(out)
+            impl(cooler.coarsen_cooler, src, out, k, chunksize=cs, columns=cols, agg={col: agg})
+            t = cooler.Cooler(out).pixels()[:]
+            if col not in t.columns:
+                return {"mismatch": True, "chunksize": cs, "what": "requested value column missing from the output", "column": col}
+            ma = drv().ask("C08.coarsen_agg", bins=bins, lens=_lens(bins), pixels=aggpx, k=k, chunksize=cs, agg=agg)
+            assert ma["table_ok"], "generator produced a table outside the theorems' hypotheses"
+            assert ma["l1_agrees"], "theorem coarsen_agg_eq_spec / coarsen_agg_correct contradicted"
+            got = [[int(a), int(b), int(v)] for a, b, v in zip(t["bin1_id"], t["bin2_id"], t[col])]
+            if got != ma["pixels"]:
+                return {"mismatch": True, "chunksize": cs, "what": f"{col} column agg={agg}", "impl": got, "model": ma["pixels"]}
+            if col == "w":
+                mc = _ask_coarsen(bins, pixels, k, cs)
+                gotc = [[int(a), int(b), int(v)] for a, b, v in zip(t["bin1_id"], t["bin2_id"], t["count"])]
+                if gotc != mc["pixels"]:
+                    return {"mismatch": True, "chunksize": cs, "what": "count column (sum) next to a custom agg on another column",
+                            "impl": gotc, "model": mc["pixels"]}
+            gb = gen.df_bins(cooler.Cooler(out).bins()[["chrom", "start", "end"]][:], list(cooler.Cooler(out).chromnames))
+            if gb != ma["bins"]:
+                return {"mismatch": True, "chunksize": cs, "what": "new bin table", "impl": gb, "model": ma["bins"]}
+            v = [x for x in monitor.violations(out) if col == "w" or "sum" not in x]
+            if v:
+                return {"mismatch": True, "chunksize": cs, "what": "schema (C02 monitor)", "violated": v}
         return None
     finally:
         _unlink(src, out)
@@ -450,12 +470,14 @@ def cases(tier, rng):
             ins[0] = gen.matrix_kinds(rng, n, symm, "full")
         yield "merge_coarsen", {"bins": bins, "inputs": ins, "k": rng.randint(2, n + 1), "symm": symm,
                                 "cs": rng.randint(1, 6), "mergebuf": rng.randint(1, 8)}
-    for t in range(24 if thorough else 8):
+    for t in range(48 if thorough else 16):
         bins, style = _table(rng, nmax)
         px = gen.matrix_kinds(rng, len(bins), True, rng.choice(["full", "dense-random", "random", "nodiag"]))
         c = {"bins": bins, "pixels": px or gen.matrix_kinds(rng, len(bins), True, "full")}
         c.update(k=rng.randint(2, len(bins) + 1), chunksize=rng.randint(1, 6))
-        yield "agg", dict(c, agg=rng.choice(["max", "min"]))
+        nnz = len(c["pixels"])
+        yield "agg", dict(c, agg=["max", "min", "first", "last"][t % 4], column=["count", "w"][(t // 4) % 2],
+                          chunksizes=sorted({1, 2, rng.randint(1, nnz + 1), nnz + 1}))
         if t % 2 == 0:
             yield "extra_column", dict(c, agg=["sum", "max", "min"][(t // 2) % 3])
         if t % 4 == 1:
